@@ -263,6 +263,11 @@ def trace_validation(ctx, B):
             if not signed:
                 b = [max(v, 0) for v in b]
                 b = [b[0], max(b[0], b[1]), b[2], max(b[2], b[3])]
+            if wrap is not int:
+                # stay inside the type the corners are handed over in (a box next to one at the end of the range)
+                lo_t, hi_t = int(np.iinfo(wrap).min), int(np.iinfo(wrap).max)
+                b = [min(max(v, lo_t), hi_t) for v in b]
+                b = [b[0], max(b[0], b[1]), b[2], max(b[2], b[3])]
         img = [rnd.choice([0, 1, 2, 5, 40, mag]), rnd.choice([0, 1, 3, 7, 40, mag])]
         if op == 'slices' and rnd.random() < 0.5:
             a = box(min(mag, 12), signed)
